@@ -448,6 +448,9 @@ mod if_alloc {
 
     pub mod shared {
         use super::*;
+        #[cfg(futures_intrusive_verif)]
+        use crate::verif::sync::{AtomicUsize, Ordering};
+        #[cfg(not(futures_intrusive_verif))]
         use core::sync::atomic::{AtomicUsize, Ordering};
 
         struct GenericStateBroadcastChannelSharedState<MutexType, T>
